@@ -220,6 +220,21 @@ func init() {
 		}
 		return nil
 	}
+	I[apiP+"Redirect"] = func(t *Thread, fn *ssa.Function, a []Value) Value {
+		name := concreteStr(a[0], "Redirect name")
+		iv, _ := a[1].(*IfaceVal)
+		if iv == nil {
+			delete(t.ex.dynRedirect, name)
+			return nil
+		}
+		fv, ok := iv.V.(*FuncVal)
+		if !ok || fv == nil {
+			unsupportedf("Redirect(%s): not a function", name)
+		}
+		noteStub("harness model substituted for " + name)
+		t.ex.dynRedirect[name] = fv
+		return nil
+	}
 	I[apiP+"GoLow"] = func(t *Thread, fn *ssa.Function, a []Value) Value {
 		fv, _ := a[0].(*FuncVal)
 		if fv == nil {
